@@ -297,6 +297,10 @@ func (e *Expression) Evaluate(dataContext IDataContext, memory *WorkingMemory) (
 		if err == nil {
 			e.Value = val
 			if e.Negated {
+				if elem := pkg.GetValueElem(e.Value); elem.IsValid() && elem.Kind() == reflect.Bool {
+					// a boolean behind a pointer or inside an interface value is a boolean to && and ||, so it is to !
+					e.Value = elem
+				}
 				if e.Value.Kind() == reflect.Bool {
 					e.Value = reflect.ValueOf(!e.Value.Bool())
 				} else {
